@@ -126,8 +126,54 @@ def setup():
       fh.write("def build(width=1, depth=2):\n  return (%r, width, depth)\n" % pk)
   sys.path.insert(0, d)
   atexit.register(lambda: shutil.rmtree(d, ignore_errors=True))
+  # ONE function registered three times with different lists (what a shared __init__, or a helper exported under
+  # several names, amounts to)
+  def shared(x=1, y=2, z=3):
+    REC.append(('shared', x, y, z))
+  SH['sh_all'] = gin.external_configurable(shared, name='sh_all', module='c07')
+  SH['sh_allow'] = gin.external_configurable(shared, name='sh_allow', module='c07', allowlist=['x'])
+  SH['sh_deny'] = gin.external_configurable(shared, name='sh_deny', module='c07', denylist=['y'])
   global F, G, CONSUMER, AL, DL, KCLS, Z0, ZF, KWD
   F, G, CONSUMER, AL, DL, KCLS, Z0, ZF, KWD = f, g, consumer, al, dl, K, z0, zf, kwd
+
+
+SH = {}
+SH_WANT = {'sh_all': {'x': '1', 'y': '2', 'z': '3'}, 'sh_allow': {'x': '1'}, 'sh_deny': {'x': '1', 'z': '3'}}
+
+
+def run_shared_function(order, res):
+  """Each registration of the one function lists the defaults ITS lists allow, whichever was called first."""
+  art = {'special': 'shared_function', 'order': list(order)}
+  harness.hard_reset()
+  del REC[:]
+  res.case(('shared_function', tuple(order)), True)
+  for name in order:
+    SH[name]()
+  first = list(REC)
+  text = gin.operative_config_str()
+  got = {}
+  for l in text.splitlines():
+    m = re.match(r'^c07\.(sh_\w+)\.(\w+) = (.*)$', l) or re.match(r'^(sh_\w+)\.(\w+) = (.*)$', l)
+    if m:
+      got.setdefault(m.group(1), {})[m.group(2)] = m.group(3)
+  want = {n: SH_WANT[n] for n in order}
+  if got != want:
+    res.violation('listed_parameters', 'one function registered as %r and called in that order: operative sections %r, '
+                  'expected %r\n%s' % (list(order), got, want, text), art)
+    return
+  harness.hard_reset()
+  del REC[:]
+  try:
+    gin.parse_config(text)
+    for name in order:
+      SH[name]()
+  except Exception as e:  # pylint: disable=broad-except
+    res.violation('operative_unparseable', 'shared function %r: replay raised %r\n%s' % (list(order), e, text), art)
+    return
+  if list(REC) != first or gin.operative_config_str() != text:
+    res.violation('replay_differs', 'shared function %r: replay gave %r, first run %r' % (list(order), list(REC), first), art)
+  else:
+    res.w('one_function_several_registrations')
 
 
 # ------------------------------------------------------------------------------------- model data
@@ -711,6 +757,10 @@ def run(ctx):
     run_failed_macro(name, res)
   for name in DOTTED:
     run_dotted_scope(name, res)
+  import itertools  # pylint: disable=import-outside-toplevel
+  for k in (1, 2, 3):
+    for order in itertools.permutations(sorted(SH), k):
+      run_shared_function(order, res)
   for n in (2, 3, 4):
     run_dynamic_collisions(n, res)
   run_read_overlapping_call(res)
@@ -735,6 +785,11 @@ def run(ctx):
 
 
 def replay(obj):
+  if obj.get('special') == 'shared_function':
+    res = core.Result()
+    run_shared_function(obj['order'], res)
+    harness.hard_reset()
+    return res
   if obj.get('special') == 'dotted_scope':
     res = core.Result()
     run_dotted_scope(obj['name'], res)
